@@ -127,6 +127,28 @@ def main():
         for ch in C.chunks(sts, 6):
             jobs.append({"model": model, "shape": s, "states": ch})
     outs = C.run_workers("replay_views", jobs)
+    # ---- second sentence of C11: mutating calls through held views (ViewWrites.tla) ----
+    cfgw = os.path.join(C.WORK, "viewwrites.cfg")
+    C.write_cfg(cfgw, spec="Spec", constants={"N": 5, "MaxCalls": 3, "SAMPLE": 150 if C.tier() == "quick" else 25, "SEEDK": C.seed()},
+                invariants=["GroupIsTheUnionOfItsCallers", "OnlyRowsOfTheCallersAreSet", "RecordedExactlyOnce", "EveryStimulusOnItsRows"],
+                constraints=["Emit"])
+    resw = C.run_tlc("MC_ViewWrites", cfgw, "viewwrites", timeout=900)
+    if resw.violated:
+        chk.violation({"tlc_invariant": resw.violated}, resw.out[-2000:])
+    elif not resw.ok:
+        raise C.MachineryError("ViewWrites.tla failed:\n" + resw.out[-2000:])
+    wsts = [json.loads(l[l.index('"{') + 1: l.rindex('}"') + 1].replace('\\"', '"')) for l in resw.printed("VW")]
+    if len(wsts) < 1000:
+        raise C.MachineryError("ViewWrites.tla emitted only %d states" % len(wsts))
+    wouts = C.run_workers("replay_viewwrites", [{"states": ch} for ch in C.chunks(wsts, C.NCPU)])
+    nw = ncalls = nchain = 0
+    for o in wouts:
+        nw += o["states"]
+        ncalls += o["calls"]
+        nchain += o["chain_views"]
+        for mm in o["mismatch"]:
+            chk.violation({"kind": mm["kind"], "op": mm["op"]}, mm)
+    wstates, wtrans = resw.distinct, resw.generated
     tot = collections.Counter()
     forms = collections.Counter()
     for job, o in zip(jobs, outs):
@@ -140,14 +162,17 @@ def main():
             chk.violation(sig, mm)
     if tot["transitions"] < trans * 0.8:
         raise C.MachineryError("replayed %d of %d transitions" % (tot["transitions"], trans))
-    chk.set("states", states)
-    chk.set("transitions", trans)
+    chk.set("states", states + wstates)
+    chk.set("transitions", trans + wtrans)
     chk.set("traces_validated_against_impl", tot["transitions"] + tot["refusals"])
     chk.set("replayed_transitions", tot["transitions"])
     chk.set("refusals_confirmed", tot["refusals"])
     chk.set("iteration_views_compared", tot["iter"])
     chk.set("lazy_index_views_compared", tot["lazy"])
     chk.set("index_forms_used", dict(forms))
+    chk.set("held_view_histories_replayed", nw)
+    chk.set("held_view_calls", ncalls)
+    chk.set("held_views_built_from_selector_chains", nchain)
     chk.set("exhaustive", True)
     chk.set("states_only_reachable_through_boundary_loc_choices_not_replayed", spec_only)
     chk.set("evaluations", tot["transitions"] + tot["refusals"])
@@ -155,7 +180,9 @@ def main():
     chk.set("rule", "closed state graph (all chains of any length) of the selector alphabet {cell, branch, comp} x index sets over 0..2, "
                     "'all', scope switches, select(nodes/edges), groups, channel and synapse-type views, edge (global scope), "
                     "loc at k/6 (compartment boundaries included: either neighbour allowed) on 3 irregular modules; every "
-                    "transition replayed, every disabled selector must raise; distinct_nontrivial = distinct views")
+                    "transition replayed, every disabled selector must raise; distinct_nontrivial = distinct views. ViewWrites.tla: two held views "
+                    "with arbitrary row sets, every sequence of <= 3 add_to_group / set / record / stimulate calls through them (562 185 states), "
+                    "a hash sample replayed with the views created BEFORE the calls")
     for s, model, n in meta:
         chk.sample({"shape": model["shape"], "edges": model["edges"], "views": n})
     chk.assume("TLC", "index masks only where their length is unambiguous; tuple indices and negative indices are refused by the code",
